@@ -227,6 +227,13 @@ func (h *NFSProcedureHandler) handleMkdir(body io.Reader, reply *RPCReply, authC
 		return reply, nil
 	}
 
+	// Invalidate caches for the new directory (may be negatively cached) and parent
+	h.server.handler.attrCache.Invalidate(dirPath)
+	h.server.handler.attrCache.Invalidate(node.path)
+	if h.server.handler.dirCache != nil {
+		h.server.handler.dirCache.Invalidate(node.path)
+	}
+
 	// Apply uid/gid: use effective UID/GID from auth context as default,
 	// only allow explicit override if caller is root (not squashed).
 	{
